@@ -14,6 +14,7 @@ import (
 	"strings"
 	"time"
 
+	"github.com/virus-evolution/gofasta/pkg/sam"
 	"github.com/virus-evolution/gofasta/pkg/snps"
 	"github.com/virus-evolution/gofasta/pkg/updown"
 	"github.com/virus-evolution/gofasta/pkg/variants"
@@ -21,7 +22,7 @@ import (
 
 func schedGen(r *RNG, id string) *Case {
 	c := NewCase("SCHED", id)
-	cmd := r.PickStr([]string{"snps", "list", "variants"})
+	cmd := r.PickStr([]string{"snps", "list", "variants", "samvariants"})
 	n := r.Range(1, 40)
 	if r.Chance(1, 6) {
 		n = r.Range(100, 300)
@@ -37,7 +38,7 @@ func schedGen(r *RNG, id string) *Case {
 		c.SetInt("k", []int{0, n - 1}[r.Intn(2)])
 	}
 	threads := r.PickInt([]int{1, 2, 3, 8})
-	if cmd != "variants" {
+	if cmd != "variants" && cmd != "samvariants" {
 		threads = runtime.NumCPU() // snps and updown list size their pool from the processor count
 	}
 	c.SetInt("threads", threads)
@@ -76,7 +77,7 @@ func execSched(_ *RNG, c *Case) {
 	if strings.HasPrefix(fail, "write") {
 		// header = write 1; snps and list make one write per record, variants two: aim at record k's iteration
 		per := 1
-		if cmd == "variants" {
+		if cmd == "variants" || cmd == "samvariants" {
 			per = 2
 		}
 		wtr = &tee{fw: &faultWriter{k: 2 + per*k, once: fail == "write-once"}, buf: &out}
@@ -88,6 +89,20 @@ func execSched(_ *RNG, c *Case) {
 			err = snps.SNPs(strings.NewReader(refTxt), strings.NewReader(aln), false, false, 0, wtr)
 		case "list":
 			err = updown.List(strings.NewReader(refTxt), strings.NewReader(aln), wtr)
+		case "samvariants":
+			// two pools (pair alignment, variant calling); the reader fails on a record whose CIGAR is not one
+			var recs []samRec
+			for i := range names {
+				cg := fmt.Sprintf("%dM", w)
+				if fail == "read" && i == k {
+					cg = fmt.Sprintf("%dQ", w)
+				}
+				recs = append(recs, samRec{name: names[i], flag: 0, pos: 1, cigar: cg, seq: strings.ReplaceAll(seqs[i], "!", "A")})
+			}
+			g := gene{name: "g0", strand: 1, codonStart: 1, segs: [][2]int{{1, 6}}, gbForm: "range", gffNamed: true, gffID: true, gffType: "CDS"}
+			gb, _ := renderGenbank([]gene{g}, ref)
+			err = sam.Variants(strings.NewReader(samText("ref", w, recs, true)), strings.NewReader(refTxt), true, strings.NewReader(gb), "gb", wtr,
+				-1, -1, false, 0, false, atoi(c.Get("threads")))
 		default:
 			g := gene{name: "g0", strand: 1, codonStart: 1, segs: [][2]int{{1, 6}}, gbForm: "range", gffNamed: true, gffID: true, gffType: "CDS"}
 			gb, _ := renderGenbank([]gene{g}, ref)
